@@ -9,52 +9,69 @@
 (***************************************************************************)
 EXTENDS Crypto, Labels, Versions
 
-Hdr(ver, purposeLabel) == B(VHeader(ver) \o purposeLabel)      \* "vN.local." / "vN.public."  (no suffix: JSON payloads)
+\* "vN.local." / "vN.public.";  sfx: the payload encoding's header suffix (empty for JSON, the only standard encoding;
+\* paseto-core's Payload::SUFFIX lets a payload type declare another one, e.g. "c": "vNc.local.").  The `...S` operators
+\* take it as their first argument, the plain ones are the standard encoding.
+HdrS(ver, sfx, purposeLabel) == B(VHeader(ver) \o sfx \o purposeLabel)
 E == B(<< >>)
 
 \* ---------------------------------------------------------------- local tokens
 \* v1: r is the caller's randomness; the nonce is derived from it and the message
 V1Nonce(r, m) == Sl(Hmac384(r, m), 0, 32)
-V1LocalFromNonce(k, n, m, f) ==
+V1LocalFromNonceS(sfx, k, n, m, f) ==
   LET salt == Sl(n, 0, 16)
       ek == Hkdf384(k, salt, B(EncKeyInfo), 32)
       ak == Hkdf384(k, salt, B(AuthKeyInfo), 32)
       c == CtrXor(ek, Sl(n, 16, 32), m)
-      t == Hmac384(ak, PAETerm(<<Hdr(1, DotLocal), n, c, f>>))
+      t == Hmac384(ak, PAETerm(<<HdrS(1, sfx, DotLocal), n, c, f>>))
   IN Cat(<<n, c, t>>)
-V1Local(k, r, m, f) == V1LocalFromNonce(k, V1Nonce(r, m), m, f)
+V1LocalS(sfx, k, r, m, f) == V1LocalFromNonceS(sfx, k, V1Nonce(r, m), m, f)
 
 V2Nonce(r, m) == Blake2b(r, m, 24)
-V2LocalFromNonce(k, n, m, f) ==
-  Cat(<<n, XChaChaPoly(k, n, PAETerm(<<Hdr(2, DotLocal), n, f>>), m)>>)
-V2Local(k, r, m, f) == V2LocalFromNonce(k, V2Nonce(r, m), m, f)
+V2LocalFromNonceS(sfx, k, n, m, f) ==
+  Cat(<<n, XChaChaPoly(k, n, PAETerm(<<HdrS(2, sfx, DotLocal), n, f>>), m)>>)
+V2LocalS(sfx, k, r, m, f) == V2LocalFromNonceS(sfx, k, V2Nonce(r, m), m, f)
 
 \* the `...With` variants take the AES-CTR counter block as a parameter: the plain operators pass the derived
 \* one, the verification hook (paseto_core::verif, cfg paseto_rs_verif) lets the harness pass boundary blocks
-V3LocalWith(k, n, m, f, i, n2) ==
+V3LocalWithS(sfx, k, n, m, f, i, n2) ==
   LET tmp == Hkdf384(k, E, Cat(<<B(EncKeyInfo), n>>), 48)
       ek == Sl(tmp, 0, 32)
       ak == Hkdf384(k, E, Cat(<<B(AuthKeyInfo), n>>), 48)
       c == CtrXor(ek, n2, m)
-      t == Hmac384(ak, PAETerm(<<Hdr(3, DotLocal), n, c, f, i>>))
+      t == Hmac384(ak, PAETerm(<<HdrS(3, sfx, DotLocal), n, c, f, i>>))
   IN Cat(<<n, c, t>>)
-V3Local(k, n, m, f, i) == V3LocalWith(k, n, m, f, i, Sl(Hkdf384(k, E, Cat(<<B(EncKeyInfo), n>>), 48), 32, 48))
+V3LocalS(sfx, k, n, m, f, i) == V3LocalWithS(sfx, k, n, m, f, i, Sl(Hkdf384(k, E, Cat(<<B(EncKeyInfo), n>>), 48), 32, 48))
 
-V4Local(k, n, m, f, i) ==
+V4LocalS(sfx, k, n, m, f, i) ==
   LET tmp == Blake2b(k, Cat(<<B(EncKeyInfo), n>>), 56)
       ek == Sl(tmp, 0, 32)
       n2 == Sl(tmp, 32, 56)
       ak == Blake2b(k, Cat(<<B(AuthKeyInfo), n>>), 32)
       c == XChaCha(ek, n2, m)
-      t == Blake2b(ak, PAETerm(<<Hdr(4, DotLocal), n, c, f, i>>), 32)
+      t == Blake2b(ak, PAETerm(<<HdrS(4, sfx, DotLocal), n, c, f, i>>), 32)
   IN Cat(<<n, c, t>>)
 
 \* ---------------------------------------------------------------- public tokens: the bytes that are signed
 \* payload = m || signature (SigLen(ver) bytes)
-V1ToBeSigned(m, f) == PAETerm(<<Hdr(1, DotPublic), m, f>>)            \* RSASSA-PSS, SHA-384, MGF1-SHA-384, salt 48, e = 65537
-V2ToBeSigned(m, f) == PAETerm(<<Hdr(2, DotPublic), m, f>>)            \* Ed25519
-V3ToBeSigned(pk, m, f, i) == PAETerm(<<pk, Hdr(3, DotPublic), m, f, i>>)   \* ECDSA P-384 / SHA-384, pk = 49-byte compressed point
-V4ToBeSigned(m, f, i) == PAETerm(<<Hdr(4, DotPublic), m, f, i>>)      \* Ed25519
+V1ToBeSignedS(sfx, m, f) == PAETerm(<<HdrS(1, sfx, DotPublic), m, f>>)            \* RSASSA-PSS, SHA-384, MGF1-SHA-384, salt 48, e = 65537
+V2ToBeSignedS(sfx, m, f) == PAETerm(<<HdrS(2, sfx, DotPublic), m, f>>)            \* Ed25519
+V3ToBeSignedS(sfx, pk, m, f, i) == PAETerm(<<pk, HdrS(3, sfx, DotPublic), m, f, i>>)   \* ECDSA P-384 / SHA-384, pk = 49-byte compressed point
+V4ToBeSignedS(sfx, m, f, i) == PAETerm(<<HdrS(4, sfx, DotPublic), m, f, i>>)      \* Ed25519
+
+
+\* the standard encoding
+V1LocalFromNonce(k, n, m, f) == V1LocalFromNonceS(<< >>, k, n, m, f)
+V2LocalFromNonce(k, n, m, f) == V2LocalFromNonceS(<< >>, k, n, m, f)
+V3LocalWith(k, n, m, f, i, n2) == V3LocalWithS(<< >>, k, n, m, f, i, n2)
+V4Local(k, n, m, f, i) == V4LocalS(<< >>, k, n, m, f, i)
+V1ToBeSigned(m, f) == V1ToBeSignedS(<< >>, m, f)
+V2ToBeSigned(m, f) == V2ToBeSignedS(<< >>, m, f)
+V3ToBeSigned(pk, m, f, i) == V3ToBeSignedS(<< >>, pk, m, f, i)
+V4ToBeSigned(m, f, i) == V4ToBeSignedS(<< >>, m, f, i)
+V1Local(k, r, m, f) == V1LocalS(<< >>, k, r, m, f)
+V2Local(k, r, m, f) == V2LocalS(<< >>, k, r, m, f)
+V3Local(k, n, m, f, i) == V3LocalS(<< >>, k, n, m, f, i)
 
 \* ---------------------------------------------------------------- PIE  (data = t || n || c)
 PieHeader(ver, ktype) == B(KHeader(ver) \o (IF ktype = "local" THEN DotLocalWrapPie ELSE DotSecretWrapPie))
